@@ -807,6 +807,14 @@ def tab19(units, R):
         fn = u.fn(name)
         cfg = fn.cfg()
         pp = [p for p in fn.params if u.ty(p['ty'])['s'].count('*') == 2]
+        by_value = False
+        if not pp:
+            # the cursor is taken by value and handed back: char *skip(char *input) { ...; return input; }
+            pv = [p for p in fn.params if u.ty(p['ty'])['c'] == 'ptr' and 'char' in u.ty(p['ty'])['s'] and u.ty(p['ty'])['s'].count('*') == 1]
+            rt = u.ty(fn.ret) if getattr(fn, 'ret', None) is not None else {}
+            if len(pv) == 1 and rt.get('c') == 'ptr' and 'char' in rt.get('s', ''):
+                pp = pv
+                by_value = True
         if len(pp) != 1:
             raise AnalysisBroken('TAB19: %s does not take one char** cursor' % name)
         if _tab19_scalar_shape(u, fn):
@@ -828,7 +836,9 @@ def tab19(units, R):
             e = strip_casts(e)
             if e.get('k') == 'un' and e['op'] in ('post++', 'post--', 'pre++', 'pre--'):
                 e = strip_casts(e['e'])
-            if e.get('k') == 'un' and e['op'] == '*' and is_ref(e['e']) and strip_casts(e['e'])['d'] == ppd:
+            if e.get('k') == 'un' and e['op'] == '*' and is_ref(e['e']) and strip_casts(e['e'])['d'] == ppd and not by_value:
+                return '*pp'
+            if by_value and e.get('k') == 'ref' and e.get('d') == ppd:
                 return '*pp'
             if e.get('k') == 'ref' and e.get('dk') == 'local' and u.ty(e['ty'])['c'] == 'ptr' and 'char' in u.ty(e['ty'])['s']:
                 return e['n']
@@ -863,6 +873,15 @@ def tab19(units, R):
                 if inloop:
                     results['exits'].append((dict(disp), dict(B), node))
                 continue
+            if by_value and node.kind == 'return':
+                # where the caller's cursor ends up is what is handed back
+                r_ = strip_casts(node.expr) if node.expr is not None else {}
+                k_ = 0
+                if r_.get('k') == 'bin' and r_['op'] == '+' and const_val(r_['r']) is not None:
+                    k_ = const_val(r_['r'])
+                    r_ = strip_casts(r_['l'])
+                c_ = cursor_of(r_) if r_ else None
+                disp['*ret'] = (disp[c_] + k_) if (c_ in disp and disp[c_] is not None) else None
             sig = (nid, tuple(sorted(disp.items(), key=repr)), tuple(sorted((a, v) for a, v in B.items())), inloop, tuple(sorted(nulls.items())))
             if sig in seen:
                 continue
@@ -976,7 +995,7 @@ def tab19(units, R):
         # exits of the scanning loop
         found = False
         for (disp, B, node) in results['exits']:
-            dmax = disp.get('*pp')       # how far the caller's cursor ends up from where this iteration started
+            dmax = disp.get('*ret') if by_value else disp.get('*pp')       # how far the caller's cursor ends up from where this iteration started
             constrained = {a: v for a, v in B.items() if v != ALL}
             if any(a < 0 for a in constrained):
                 n_ob += 1
@@ -985,7 +1004,13 @@ def tab19(units, R):
                 continue
             b0 = constrained.get(0)
             if b0 is not None and b0 == frozenset([0]):
-                continue      # left at the terminator
+                # left at the terminator: the cursor stays on it
+                if dmax is not None and dmax != 0:
+                    n_ob += 1
+                    R.ob('TAB19', fn, None, '%s leaves the cursor on the terminator when the text ends inside the comment' % name, False,
+                         'the cursor is moved %d byte(s) past the terminator: the caller goes on reading behind the end of the text' % dmax,
+                         key='past-end:' + name)
+                continue
             n_ob += 1
             want = {i: frozenset([ord(ch)]) for i, ch in enumerate(closer)}
             got = {a: v for a, v in constrained.items()}
